@@ -19,7 +19,8 @@ RULE = ('bodies from the G-doc grammar (safe text policy; paragraphs, headings, 
         'complete iff a non-control key is present; R3 other keys (any values, any order) never change the snippet; R4 control keys change '
         'only what they document (base header level shifts <hN>; language keys leave a smart-less, note-less snippet unchanged). '
         'Non-trivial: body with >=2 blocks and >=1 metadata key; distinct by (source, format, extensions).')
-ASSUMPTIONS = ['bibtex, mmd header/footer and transclude base are never generated (documented to act on body/input; C06/C13 exercise them)',
+ASSUMPTIONS = ['generated glossary definitions never cite (known finding R1:...:glossary-definition-cites, reproduced by its committed seed only)',
+               'bibtex, mmd header/footer and transclude base are never generated (documented to act on body/input; C06/C13 exercise them)',
                'bodies contain no [%key] variables; the first body line never has the shape `key: value`',
                'EXT_COMPLETE and EXT_SNIPPET are applied one at a time, as in the statement']
 
@@ -91,6 +92,8 @@ def body_text(b):
     if 'corpus' in b:
         cs = corpus_bodies()
         return cs[b['corpus'] % len(cs)], True
+    if 'raw' in b:
+        return b['raw'], False          # (committed seeds only)
     if 'tiny' in b:
         return b['tiny'] + ' end\n', False
     s = gdoc.ser_body(b)
@@ -137,6 +140,10 @@ def check(case, ctx):
     # R1: snippet verbatim inside complete
     core = snip[:-1] if snip.endswith('\n') else snip
     idx = comp.find(core)
+    if idx < 0 and fmt in ('latex', 'beamer', 'memoir') and re.search(r'(?m)^\[\?[^\]]+\]:.*\[#', B):
+        # known finding: the complete LaTeX document prints the glossary definitions in its preamble, and a citation inside one is
+        # registered there, before the citations of the body: the bibliography of the complete document is ordered differently
+        raise Violation('R1:snippet-not-in-complete:glossary-definition-cites', 'fmt=%s\nsource=%r\nsnippet=%r\ncomplete=%r' % (fmt, M + B, snip[-500:], comp[-700:]))
     if idx < 0:
         raise Violation('R1:snippet-not-in-complete', 'fmt=%s ext=%#x\nsource=%r\nsnippet=%r\ncomplete=%r' % (fmt, ext, M + B, snip[-600:], comp[-900:]))
     # R2: default is one of the two; complete iff an "other" key is present
